@@ -97,8 +97,10 @@ def TraitSet.step (v : Callback α α) (s : PSet α) : Op α → Except Exc (SOu
       if y ∈ s then .ok { items := insert s y }
       else .ok { items := insert s y, event := some ⟨[], [y]⟩ }
   | .clear =>                                         -- :265-271
-    if s.isEmpty then .ok { items := [] }
-    else .ok { items := [], event := some ⟨s, []⟩ }
+    -- removed = set(self); super().clear(); if removed: self.notify(removed, set())
+    let removed := ofList s
+    if removed.isEmpty then .ok { items := [] }
+    else .ok { items := [], event := some ⟨removed, []⟩ }
   | .discard x =>                                     -- :273-288
     if x ∈ s then .ok { items := erase s x, event := some ⟨[x], []⟩ }
     else .ok { items := erase s x }
